@@ -225,6 +225,7 @@ func runC01rest(p *an.Prog, r *an.Run, transfer *ssa.Function) {
 	checkTxnWrappers(p, r)
 	checkBigIntOwnership(p, r)
 	checkKeyOperandTypes(p, r)
+	checkTTLDiscipline(p, r)
 	for _, d := range drivers {
 		checkDriverLedger(p, r, d)
 	}
